@@ -54,11 +54,32 @@ let parse (obs : S.t list) : parsed =
       returned; events = ev }
   | _ -> raise (Malformed "flags")
 
+let starts s p = S.length s >= S.length p && S.sub s 0 (S.length p) = p
+let num s from = (try nat (ios (S.sub s from (S.length s - from))) with _ -> raise (Malformed ("bad event " ^ s)))
+let ev_of_tok (t : S.t) : Model.ev =
+  if starts t "KC" then
+    (match S.index_opt t ':' with
+     | Some j -> Model.VCloseCall (nat (ios (S.sub t 2 (j - 2))))
+     | None -> raise (Malformed ("bad event " ^ t)))
+  else if starts t "KR" then Model.VCloseRet (num t 2)
+  else if starts t "SA" then Model.VOwned (num t 2)
+  else if starts t "RD" then Model.VRead (num t 2)
+  else if starts t "AB" then Model.VAbort (num t 2)
+  else if starts t "CC" then Model.VSockClose (num t 2)
+  else if starts t "RX" then Model.VRecvExit (num t 2)
+  else if starts t "WBl" then Model.VWBlockLoop (num t 3)
+  else if starts t "WBa" then Model.VWBlockOff (num t 3)
+  else if starts t "WR" then Model.VWRet (num t 2)
+  else if starts t "NS" then Model.VState (num t 2)
+  else if t = "BH" then Model.VBH
+  else if t = "T0s" then Model.VTask
+  else Model.VOther
+
 let to_obs (p : parsed) : Model.obs =
   { Model.o_closers = p.closers; o_calls = p.calls;
     o_later = L.map (fun (a, c, e) -> { Model.lapi = coq_string a; lclass = nat c; leffect = nat e }) p.later;
     o_states = L.map nat p.states; o_latecb = nat p.latecb; o_left = L.map coq_string p.left;
-    o_connected = p.connected; o_returned = p.returned }
+    o_connected = p.connected; o_returned = p.returned; o_events = L.map ev_of_tok p.events }
 
 (* replace the LT section by the model's prediction where the model has the operation *)
 let model_tokens (p : parsed) (obs : S.t list) (explained : bool) : S.t list =
